@@ -470,6 +470,34 @@ func c03Sequences(r *vf.Run) {
 						}
 					}
 				}
+				// operators WITHOUT operands (reachable through the Go API and the wire, not through the text parser): the
+				// library answers them like the empty set; the reference is the uncached index itself, which is how the
+				// property is worded. Twins that differ only by such a node must not share a cached result.
+				if len(qs) > 2 {
+					a, b := qs[(len(cid)*3)%len(qs)].e, qs[(len(cid)*5+1)%len(qs)].e
+					none := func(op byte) *oracle.Expr { return &oracle.Expr{Op: op} }
+					var twins []*oracle.Expr
+					for _, op := range []byte{'&', '|'} {
+						mk := func(kids ...*oracle.Expr) *oracle.Expr { return &oracle.Expr{Op: op, Kids: kids} }
+						twins = append(twins, mk(a, b), mk(a, b, none(op)), mk(a, mk(b, none(op))), mk(a, b), oracle.Not(mk(a, b, none(op))), oracle.Not(mk(a, b)),
+							mk(a, none(op)), mk(a), none(op), oracle.Not(none(op)), mk(a, b, none(byte('&'+'|')-op)), mk(mk(a, b), none(op)), mk(a, b))
+					}
+					rng.Shuffle(len(twins), func(i, j int) { twins[i], twins[j] = twins[j], twins[i] })
+					for pass := 0; pass < 2; pass++ {
+						for ti, e := range twins {
+							gb := []string(nil)
+							res, err := ix.Exec(idx, e, gb)
+							fres, ferr := ix.Exec(fresh, e, gb)
+							r.Eval(1)
+							r.Count("queries_with_an_operator_without_operands", 1)
+							if d := sameLibraryAnswer(res, err, fres, ferr); d != "" {
+								r.Violation(fmt.Sprintf("%s/no-operands%d", cid, ti), "differs-from-uncached-index", map[string]any{"difference": d, "expr": e.String(), "capacity_bytes": cp.size, "mode": mode, "pass": pass,
+									"explanation": "the same expression on an uncached index opened on the same file gives the other answer; an operator without operands is part of the expression"})
+								break
+							}
+						}
+					}
+				}
 				// one query object edited in place and re-executed on the cached index (stale keys memoised in the object
 				// would hand out the result of what the object meant before)
 				if len(qs) > 3 {
@@ -511,4 +539,21 @@ func prevQueries(qs []seqQuery, i, n int) []string {
 		out = append(out, fmt.Sprintf("%s ; %q", qs[k].e.String(), qs[k].gb))
 	}
 	return out
+}
+
+// sameLibraryAnswer compares two answers of the library itself (cached vs uncached index).
+func sameLibraryAnswer(res *updog.Result, err error, fres *updog.Result, ferr error) string {
+	if (err != nil) != (ferr != nil) {
+		return fmt.Sprintf("error %v, uncached index: error %v", err, ferr)
+	}
+	if err != nil {
+		return ""
+	}
+	if res.Count != fres.Count {
+		return fmt.Sprintf("count %d, uncached index: %d", res.Count, fres.Count)
+	}
+	if a, b := fmt.Sprint(res.Groups), fmt.Sprint(fres.Groups); a != b {
+		return fmt.Sprintf("groups %s, uncached index: %s", head(a, 300), head(b, 300))
+	}
+	return ""
 }
